@@ -238,6 +238,7 @@ type subV struct {
 	plan   uint64
 	status hubtypes.Status
 	hours  int64
+	paidUp bool // hourly subscription whose payout has no hour left (all payouts made) but which is still stored
 	allocs []allocV
 }
 type allocV struct {
@@ -296,6 +297,13 @@ func (g *Gen) view() *view {
 	}
 	for _, p := range k.Subscription.GetPayouts(ctx) {
 		add(p.NextAt)
+		if p.Hours == 0 {
+			for i := range v.subs {
+				if v.subs[i].id == p.ID {
+					v.subs[i].paidUp = true
+				}
+			}
+		}
 	}
 	for _, x := range k.Session.GetSessions(ctx) {
 		v.sess = append(v.sess, sessV{x.ID, x.SubscriptionID, x.GetAddress(), x.GetNodeAddress(), x.Status})
@@ -562,6 +570,12 @@ func (g *Gen) Tx(v *view) error {
 		weights[14], weights[15] = 1, 1
 	}
 	for _, x := range v.subs {
+		if x.paidUp && x.status == hubtypes.StatusActive {
+			weights[11] += 4
+			break
+		}
+	}
+	for _, x := range v.subs {
 		if len(x.allocs) > 1 {
 			weights[11] += 3 // a shared subscription: cancellations by its holders are the interesting ones
 			break
@@ -761,6 +775,12 @@ func (g *Gen) Tx(v *view) error {
 		id := g.someID(subMax)
 		if len(v.subs) > 0 && g.chance(0.9) {
 			id = v.subs[g.pick(len(v.subs))].id
+			// a lease in its last hour (every payout made, not yet expired) is a rare state worth cancelling
+			for _, x := range v.subs {
+				if x.paidUp && x.status == hubtypes.StatusActive && g.chance(0.4) {
+					id = x.id
+				}
+			}
 		}
 		var owner []byte
 		var related [][]byte
